@@ -137,6 +137,9 @@ type Tree struct {
 	ByName map[string][]*TreeFile // proto file name -> candidates
 	ByDir  map[string][]*TreeFile // directory (relative) -> files
 	Errors []string               // *.pb.go files whose descriptor could not be read
+	// Synth holds synthesised files that other synthesised files import (proto file name -> descriptor).
+	// It is filled before any parallel phase starts and only read afterwards.
+	Synth map[string]*descriptorpb.FileDescriptorProto
 
 	Gorums   *descriptorpb.FileDescriptorProto
 	Ext      map[string]protoreflect.ExtensionType // "rpc", "quorumcall", …
@@ -250,9 +253,20 @@ func (t *Tree) Scan() {
 	sort.Strings(t.Errors)
 }
 
-// resolve returns the FileDescriptorProto of an imported file: well-known files come from
-// the protobuf runtime linked into this tool, everything else from the tree.
+// addSynth registers a synthesised file so that files importing it resolve (not safe for concurrent use).
+func (t *Tree) addSynth(fdp *descriptorpb.FileDescriptorProto) {
+	if t.Synth == nil {
+		t.Synth = map[string]*descriptorpb.FileDescriptorProto{}
+	}
+	t.Synth[fdp.GetName()] = fdp
+}
+
+// resolve returns the FileDescriptorProto of an imported file: synthesised dependencies first, well-known
+// files from the protobuf runtime linked into this tool, everything else from the tree.
 func (t *Tree) resolve(name, preferDir string) (*descriptorpb.FileDescriptorProto, error) {
+	if f := t.Synth[name]; f != nil {
+		return f, nil
+	}
 	if c := t.ByName[name]; len(c) > 0 {
 		best := c[0]
 		for _, tf := range c {
